@@ -101,6 +101,7 @@ def run_property(prop_id: str, tier: str, seed: int, repo_root: str = "/repo",
         return mod.run_custom(tier, seed, repo_root, relock)
     work = [(prop_id, "fn", k, tier, repo_root) for k in plan["targets"]]
     work += [(prop_id, "lemma", k, tier, repo_root) for k, _ in plan.get("lemmas", [])]
+    side = _start_native_side_check(prop_id, mod, tier, seed, repo_root)
     n = jobs or min(16, max(1, len(work)))
     if n > 1:
         with mp.get_context("fork").Pool(n) as pool:
@@ -111,6 +112,8 @@ def run_property(prop_id: str, tier: str, seed: int, repo_root: str = "/repo",
     if hasattr(mod, "extra_checks"):
         extra = mod.extra_checks(tier, seed, repo_root) or []
         reports.extend(extra)
+    if side is not None:
+        reports.extend(_finish_native_side_check(prop_id, side, repo_root))
     controls = None
     if tier == "thorough" and not os.environ.get("PYVC_NO_EVIDENCE") and getattr(mod, "CONTROLS", None):
         controls = run_controls(prop_id, mod.CONTROLS, repo_root)
@@ -159,6 +162,68 @@ def run_engine_a(prop_id: str, tier: str, seed: int, repo_root: str = "/repo", r
         print(f"CHECKER-CRASH: negative control(s) not detected: {missed}", file=sys.stderr)
         rc = 3
     return rc, plan.get("_evidence")
+
+
+def _start_native_side_check(prop_id, mod, tier, seed, repo_root):
+    """BOUNDED complement to the proof: the property's native falsifier (the program that replays
+    counterexamples: sampled inputs run through the real code in real floating point) is also run when every
+    obligation discharges.  The proofs read floats as reals (A1) and cover the functions under contract; a
+    change that is an identity over the reals, or that sits beside the contracts, can only be seen this way.
+    Enabled per property (`NATIVE_SIDE_CHECK = {"quick": bool, "thorough": bool}`); runs concurrently."""
+    want = getattr(mod, "NATIVE_SIDE_CHECK", None)
+    prog = getattr(mod, "REPLAY", None)
+    if not want or not prog or not want.get(tier) or os.environ.get("PYVC_NO_SIDE_CHECK"):
+        return None
+    os.makedirs(os.path.join(VERIF, "replays"), exist_ok=True)
+    path = os.path.join(VERIF, "replays", f"{prop_id}__native-side-check.{os.getpid()}.json")
+    with open(path, "w") as f:
+        json.dump({"property": prop_id, "obligation": f"{prop_id}/native-side-check", "kind": "side-check",
+                   "counter_model": None, "seed": seed}, f)
+    env = dict(os.environ, PYTHONPATH=repo_root, VERIF_SEED=str(seed), PYTHONDONTWRITEBYTECODE="1")
+    env.setdefault("OMP_NUM_THREADS", "2")
+    t0 = time.time()
+    p = subprocess.Popen([NATIVE_PY, os.path.join(VERIF, prog), path, repo_root], cwd=repo_root, env=env,
+                         stdout=subprocess.PIPE, stderr=subprocess.PIPE, text=True)
+    return {"proc": p, "path": path, "prog": prog, "t0": t0}
+
+
+def _finish_native_side_check(prop_id, side, repo_root):
+    p = side["proc"]
+    label = "native-falsifier[side check]"
+    func = f"{prop_id}/{label}"
+    rep = {"target": side["prog"], "label": label, "paths": 1, "error": None, "crash": None, "obligations": [],
+           "assumptions": [], "stats": {}, "span": None, "file": os.path.join(VERIF, side["prog"]), "sha256": None,
+           "wall_s": 0, "outcomes": {}, "contract": None}
+    try:
+        out, err = p.communicate(timeout=900)
+        rc = p.returncode
+    except subprocess.TimeoutExpired:
+        p.kill()
+        out, err, rc = "", "timeout after 900 s", None
+    tail = "\n".join(l for l in (out or "").splitlines() if "conda" not in l.lower())[-3000:]
+    reproduced = rc == 1 and "REPRODUCED" in tail and not tail.strip().splitlines()[-1].startswith("NOT-REPRODUCED")
+    clean = rc == 0
+    status = "failed" if reproduced else ("discharged" if clean else "skipped")
+    nat = {"cmd": f"{NATIVE_PY} {side['prog']} <side-check record> {repo_root}", "exit": rc, "stdout": tail,
+           "stderr": (err or "")[-800:], "reproduced": reproduced}
+    if status != "skipped":
+        rep["obligations"].append({
+            "name": f"{func}/no-failing-input-among-the-sampled-ones", "kind": "bounded-native", "status": status,
+            "backend": "native(real torch, IEEE floats)", "time_s": round(time.time() - side["t0"], 2),
+            "model": {"falsifier_output": tail[-1200:]} if reproduced else None, "lineno": None, "func": func, "path": [],
+            "note": "bounded: the sampled inputs of the property's native falsifier", "known": None, "nolock": True,
+            "native_replay": nat})
+    else:
+        # did not finish / harness error: recorded, never a verdict
+        print(f"NOTE: native side check of {prop_id} did not complete (exit {rc}): {(err or tail)[-200:]!r}")
+        rep["error"] = None
+    rep["wall_s"] = round(time.time() - side["t0"], 2)
+    try:
+        if not reproduced:
+            os.remove(side["path"])
+    except OSError:
+        pass
+    return [rep]
 
 
 def run_controls(prop_id, controls, repo_root):
